@@ -641,8 +641,19 @@ func (w *World) applyStumpy(n *Node, b *Block) {
 		}
 	}
 	var ud u.UpdateData
-	g = w.fp.begin("Stump.Update", dels, proof.Targets, proof.Proof, b.Adds)
-	err, _ = guard(func() error { var e error; ud, e = n.st.Update(dels, b.Adds, proof); return e })
+	uDels, uAdds := dels, b.Adds
+	if SubRng(b.Seed^uint64(n.idx+1)*0xad1a, "adjacent").Pct(20) && len(dels) > 0 && len(b.Adds) > 0 {
+		// the block as one buffer: deleted hashes and added hashes are adjacent
+		// sub-slices of the same backing array (the deletions' spare capacity IS the
+		// additions), plus sentinels behind
+		buf := make([]H, 0, len(dels)+len(b.Adds)+2)
+		buf = append(append(buf, dels...), b.Adds...)
+		buf = padH(buf)
+		uDels, uAdds = buf[:len(dels)], buf[len(dels):len(dels)+len(b.Adds)]
+		w.stats.Reach["stump_update_dels_and_adds_share_one_buffer"]++
+	}
+	g = w.fp.begin("Stump.Update", uDels, proof.Targets, proof.Proof, uAdds)
+	err, _ = guard(func() error { var e error; ud, e = n.st.Update(uDels, uAdds, proof); return e })
 	g.end()
 	if err != nil {
 		w.blame(n, "apply-err", fmt.Sprintf("Stump.Update failed on an honest block %d: %v", b.ID, err))
